@@ -205,6 +205,22 @@ Example periodic_conversion_wraps_beyond_int32 :
   conv_periodic 31536000 1000 100 500000000000000000 = CExp 100000 (-1141367296 * SECOND) 500000000000000000.
 Proof. vm_compute. reflexivity. Qed.
 
+(* v1.1.0 store migration of the vesting pools: what a pool still locks is unchanged (value is preserved although the
+   representation changes from "last modification" counters to initially-locked / sent / withdrawn) *)
+Theorem v1_pool_migration_preserves_locked p :
+  let '(l, w, se) := migrate_v1_pool p in l - se - w = v1_currently_locked p /\ w = v1_withdrawn p /\ l = v1_vested p.
+Proof. unfold migrate_v1_pool, v1_currently_locked. repeat split; lia. Qed.
+
+(* the new pool satisfies the solvency bounds exactly when the old counters were consistent *)
+Theorem v1_pool_migration_bounds p :
+  let '(l, w, se) := migrate_v1_pool p in
+  (0 <= w /\ 0 <= se /\ w + se <= l) <-> (0 <= v1_withdrawn p /\ v1_lmv p - v1_lmw p <= v1_vested p - v1_withdrawn p /\ v1_lmw p <= v1_lmv p).
+Proof. unfold migrate_v1_pool. lia. Qed.
+
+Theorem v1_mstate_migration_keeps_counters po mi re rp s :
+  migrate_v1_mstate po mi re rp = Some s -> s = (wrap_u32 po, mi, re, rp) /\ 0 <= mi /\ 0 <= re /\ 0 <= rp.
+Proof. unfold migrate_v1_mstate. destruct ((mi <? 0) || (rp <? 0) || (re <? 0)) eqn:E; [discriminate|]. intros H; injection H as <-. repeat split; lia. Qed.
+
 (* ------------------------------------------------------------------ non-vacuity *)
 Example migrate_example :
   let c := {| lc_denom_nonempty := true; lc_denom_ok := true; lc_start := 1000;
